@@ -6,6 +6,7 @@ import (
 	"context"
 	"fmt"
 	"os"
+	"runtime"
 	"strings"
 	"testing"
 	"testing/synctest"
@@ -223,10 +224,17 @@ func cases(run *mon.Run) []kase {
 func TestC03(t *testing.T) {
 	run := mon.Start(t, "C03", "fault_enumeration",
 		"client {single, cluster (3 primaries), standalone with EnableRedirect} x queue {ring, flowbuffer} x ConnLifetime {off, 500 ms} x fault on one command {none, close before exec, close after exec, reply cut after 1 byte, silent after exec, reply slower than lifetime+grace, slow exec, MOVED, ASK, REDIRECT} "+
-			"x batch shape {Do, DoMulti of 3, MULTI/EXEC block at index 0, at index 1} x faulty position, each in a synctest bubble over 40 virtual seconds; oracle: every VERIF.WRITE uid is executed by the servers at most once (redirect replies are injected without executing); a case is non-trivial when something was executed")
+			"x batch shape {Do, DoMulti of 3, MULTI/EXEC block at index 0, at index 1} x faulty position, each in a synctest bubble over 40 virtual seconds; oracle: every VERIF.WRITE uid is executed by the servers at most once (redirect replies are injected without executing); a case is non-trivial when something was executed. "+
+			"Second family (abandon): client x queue x {cancel, deadline} x {writer blocked in Flush by an earlier call, not} x given-up call shape {Do, DoMulti of 2, of 3, MULTI/EXEC} x successors {same shape, DoMulti of 4, Do, two batches} "+
+			"with seeded AlwaysPipelining / ConnLifetime / blocker on the sync or pipelined path / successors from the same or a fresh goroutine / release by resume or connection kill / cluster batches spread over a second node: "+
+			"a node sits on a blocker command and stops reading, a call is given up by its context while its commands are still unread, further calls queue behind it, then the server catches up; same oracle over the uids of all calls")
 	defer run.Finish()
 	run.Assume("fakeredis logs one exec event per execution (also inside EXEC)", "redirect replies are produced by fault rules that do not execute the command")
 	cs := cases(run)
+	only := os.Getenv("VERIF_C03_ONLY") // debugging aid: run just these cases (comma separated names) - never set by check.sh
+	if only != "" {
+		cs = nil
+	}
 	for i, k := range cs {
 		k := k
 		dl, stacks := drv.Bubble(t, func() { runCase(run, k) })
@@ -237,5 +245,27 @@ func TestC03(t *testing.T) {
 			run.Sample(k.String())
 		}
 	}
+	for i, k := range abandonCases(run) {
+		k := k
+		if only != "" && !strings.Contains(","+only+",", ","+k.name+",") {
+			continue
+		}
+		if k.plain() {
+			// the plain cases start from empty sync.Pools (two collections drop a pool's content), so what a call finds in
+			// rueidis's buffer pools is what the calls of THIS case left there; the variations inherit whatever the history left
+			runtime.GC()
+			runtime.GC()
+		}
+		dl, stacks := drv.Bubble(t, func() { runAbandon(run, k) })
+		if dl != "" {
+			run.Violation("hang-or-leak", abandonKey(k, stacks), map[string]any{"case": k.String(), "synctest": dl, "rueidis_frames": drv.RueidisFrames(stacks)})
+		}
+		if i%41 == 0 {
+			run.Sample(k.String())
+		}
+	}
 	run.Require("execs_1", "execs_0")
+	// the second family must really have produced its situation: a call given up before the server had read any of its
+	// commands, successors queued behind it, and the server then catching up with all of them
+	run.Require("abandon_given_up_unread_call_then_successors_drained", "abandon_given_up_unread_cluster_batch_then_successors_drained")
 }
